@@ -7,6 +7,7 @@ import (
 	"runtime"
 	"sort"
 	"strconv"
+	"strings"
 	"sync"
 	"sync/atomic"
 	"testing/synctest"
@@ -32,12 +33,20 @@ type Decision struct {
 type lockState struct {
 	writer  uint64 // goroutine holding it exclusively (0 = none)
 	readers int
+	// pendingW counts goroutines that have called Lock() and wait (parked at the
+	// automatic yield in front of it, or invisibly). As with sync.RWMutex, a
+	// pending writer keeps every new RLock out, also one by a goroutine that
+	// already holds a read lock: recursive read locking deadlocks here as it
+	// does in the real thing.
+	pendingW int
+	readerG  map[uint64]int // who holds it shared (for the wait-for graph)
 }
 
 // lockWant is the argument of a task parked at an automatic "about to lock" yield.
 type lockWant struct {
 	m    any
 	mode string
+	gid  uint64 // the goroutine that wants it
 }
 
 type section struct {
@@ -97,7 +106,8 @@ type SchedKnobs struct {
 	StallMax   int           `json:"stall_max,omitempty"`
 	StallDelta time.Duration `json:"stall_delta,omitempty"`
 	StallP     float64       `json:"stall_p,omitempty"`
-	AutoOff    bool          `json:"auto_off,omitempty"` // autoyield builds: lock acquisitions are not yield points in this run
+	AutoOff    bool          `json:"auto_off,omitempty"`    // autoyield builds: lock acquisitions are not yield points in this run
+	AutoNested bool          `json:"auto_nested,omitempty"` // autoyield builds: also acquisitions made while holding another lock are yield points
 	MaxSteps   int           `json:"max_steps"`
 	MaxVirtual time.Duration `json:"max_virtual"`
 }
@@ -113,11 +123,15 @@ type Sim struct {
 	Holds    int // holds that actually took effect
 	// lock tracking (autoyield builds): which real mutexes are held, and how
 	// many locks each goroutine holds
-	locks     map[any]*lockState
-	depth     map[uint64]int
-	AutoOff   bool // this run: lock acquisitions are tracked but are not yield points
-	RealScale int  // > 0: real-time mode outside a synctest bubble, all durations divided by this
-	Free      bool // uncontrolled mode: yield points do not park, the Go scheduler decides (race detector runs)
+	locks      map[any]*lockState
+	depth      map[uint64]int
+	announced  map[uint64]any // goroutine -> mutex it is a pending writer of
+	lockStuck  int            // consecutive idle rounds in which every parked task waited for a held mutex
+	Deadlock   string         // set when the run was ended because of that
+	AutoOff    bool           // this run: lock acquisitions are tracked but are not yield points
+	autoNested bool           // this run: nested acquisitions are yield points too
+	RealScale  int            // > 0: real-time mode outside a synctest bubble, all durations divided by this
+	Free       bool           // uncontrolled mode: yield points do not park, the Go scheduler decides (race detector runs)
 	// critical sections of repo code that contain yield points (a real mutex
 	// held across yields): a task parked at the Enter point is not eligible
 	// while another task is inside the section. Keyed by Enter point.
@@ -138,9 +152,11 @@ type Sim struct {
 	steps   int
 	start   time.Time
 	namer   func(point string, arg any) string
-	skip    func(point string, arg any) bool // yield points that must not park in the current state
-	onStep  func(t *Task)                    // called (scheduler goroutine) just before a task is released
-	onIdle  func() error                     // invariant hook, called after every quiescence
+	skip    func(point string, arg any) bool  // yield points that must not park in the current state
+	onStep  func(t *Task)                     // called (scheduler goroutine) just before a task is released
+	holdFor func(point string, arg any) *Hold // a hold armed for whatever goroutine reaches point with arg (server mode: by request id)
+	onHold  func(at string)                   // a hold has begun at the yield point
+	onIdle  func() error                      // invariant hook, called after every quiescence
 	H       *History
 	Budget  string // non-empty when the run hit a step / virtual time budget
 	Diverge int    // replay decisions that could not be honoured
@@ -148,24 +164,26 @@ type Sim struct {
 
 func NewSim(seed int64, knobs SchedKnobs, h *History) *Sim {
 	s := &Sim{
-		tasks:    map[uint64]*Task{},
-		byName:   map[string]*Task{},
-		ordinals: map[string]int{},
-		taken:    map[int64]bool{},
-		pointN:   map[string]int{},
-		locks:    map[any]*lockState{},
-		depth:    map[uint64]int{},
-		arrival:  make(chan struct{}, 1),
-		disabled: map[string]bool{},
-		knobs:    knobs,
-		rng:      rand.New(rand.NewSource(seed)),
-		H:        h,
-		pctPts:   map[int]bool{},
+		tasks:     map[uint64]*Task{},
+		byName:    map[string]*Task{},
+		ordinals:  map[string]int{},
+		taken:     map[int64]bool{},
+		pointN:    map[string]int{},
+		locks:     map[any]*lockState{},
+		depth:     map[uint64]int{},
+		announced: map[uint64]any{},
+		arrival:   make(chan struct{}, 1),
+		disabled:  map[string]bool{},
+		knobs:     knobs,
+		rng:       rand.New(rand.NewSource(seed)),
+		H:         h,
+		pctPts:    map[int]bool{},
 	}
 	for _, p := range knobs.Disabled {
 		s.disabled[p] = true
 	}
 	s.AutoOff = knobs.AutoOff
+	s.autoNested = knobs.AutoNested
 	s.start = time.Now()
 	s.active.Store(true)
 	if knobs.Policy == "pct" {
@@ -362,20 +380,118 @@ func (s *Sim) park(t *Task, point string, arg any) {
 			}
 		}
 	}
+	if t.hold == nil && s.holdFor != nil {
+		t.hold = s.holdFor(point, arg)
+	}
+	began := ""
 	if h := t.hold; h != nil && h.At == point {
 		t.held, t.heldSince, t.heldBase = true, s.Now(), s.pointN[h.For]
 		t.holdInfo = h
 		t.hold = nil
 		s.Holds++
 		s.H.Add(Event{Kind: "fault", Task: t.name, Info: "hold:" + h.At + "->" + h.For})
+		began = h.At
 	}
 	s.parked = append(s.parked, t)
 	s.mu.Unlock()
+	if began != "" && s.onHold != nil {
+		s.onHold(began)
+	}
 	s.notify()
 	<-t.wake
 }
 
 const lockHeldPoint = "lock@held"
+
+// lockCycleLocked looks for a cycle in the wait-for graph of the goroutines
+// that are parked in front of a mutex they cannot have: a waiter waits for the
+// exclusive holder, a would-be writer also for every reader inside (itself
+// included: an upgrade), a would-be reader also for every pending writer (a
+// new RLock queues behind a waiting Lock, also when the goroutine already
+// holds a read lock - Go's documented ban on recursive read locking). A cycle
+// is a deadlock of the proxy: none of its members can ever run again. It
+// returns a description of the waiters, "" when there is no cycle.
+func (s *Sim) lockCycleLocked(parked []*Task) string {
+	waits := map[uint64][]uint64{}
+	for _, t := range parked {
+		lw, ok := t.arg.(lockWant)
+		if !ok || lw.gid == 0 || s.lockFreeLocked(lw.m, lw.mode, 0) {
+			continue
+		}
+		ls := s.locks[lw.m]
+		if ls == nil {
+			continue
+		}
+		if ls.writer != 0 {
+			waits[lw.gid] = append(waits[lw.gid], ls.writer)
+		}
+		if lw.mode == "W" {
+			for g := range ls.readerG {
+				waits[lw.gid] = append(waits[lw.gid], g)
+			}
+		} else if ls.pendingW > 0 {
+			for g, m := range s.announced {
+				if m == lw.m {
+					waits[lw.gid] = append(waits[lw.gid], g)
+				}
+			}
+		}
+	}
+	state := map[uint64]int{} // 1 = on the stack, 2 = done
+	var visit func(g uint64) bool
+	visit = func(g uint64) bool {
+		switch state[g] {
+		case 1:
+			return true
+		case 2:
+			return false
+		}
+		state[g] = 1
+		for _, h := range waits[g] {
+			if _, waiting := waits[h]; waiting && visit(h) {
+				return true
+			}
+		}
+		state[g] = 2
+		return false
+	}
+	for g := range waits {
+		if visit(g) {
+			return s.describeLockWaitLocked(parked)
+		}
+	}
+	return ""
+}
+
+// describeLockWaitLocked lists who waits for which mutex and who holds it.
+func (s *Sim) describeLockWaitLocked(parked []*Task) string {
+	byGID := map[uint64]string{}
+	for g, t := range s.tasks {
+		byGID[g] = t.name
+	}
+	var b strings.Builder
+	for _, t := range parked {
+		lw, ok := t.arg.(lockWant)
+		if !ok || s.lockFreeLocked(lw.m, lw.mode, 0) {
+			continue
+		}
+		ls := s.locks[lw.m]
+		fmt.Fprintf(&b, "%s waits at %s for %s-lock %v", t.name, t.point, lw.mode, lw.m)
+		if ls != nil {
+			if ls.writer != 0 {
+				fmt.Fprintf(&b, " held by %s", byGID[ls.writer])
+			}
+			if ls.readers > 0 {
+				fmt.Fprintf(&b, " (%d reader(s) inside)", ls.readers)
+			}
+			if ls.pendingW > 0 && lw.mode == "R" {
+				fmt.Fprintf(&b, " (%d writer(s) pending: a new RLock waits behind them)", ls.pendingW)
+			}
+		}
+		b.WriteString("; ")
+	}
+	return b.String()
+}
 
 // LockHook is installed as server.SimLockHook in autoyield builds.
 func (s *Sim) LockHook(kind string, m any, mode string, site string) {
@@ -387,8 +503,21 @@ func (s *Sim) LockHook(kind string, m any, mode string, site string) {
 	switch kind {
 	case "pre":
 		s.mu.Lock()
-		nested := s.depth[gid] > 0
+		nested := s.depth[gid] > 0 && !s.autoNested
 		busy := !s.lockFreeLocked(m, mode, gid)
+		if !nested && !s.AutoOff && insideOnce() {
+			nested = true
+		}
+		if mode == "W" && (busy || !(nested || s.AutoOff)) {
+			// from here on this goroutine counts as having called Lock()
+			ls := s.locks[m]
+			if ls == nil {
+				ls = &lockState{}
+				s.locks[m] = ls
+			}
+			ls.pendingW++
+			s.announced[gid] = m
+		}
 		s.mu.Unlock()
 		if nested || s.AutoOff {
 			// No yield while holding another lock, or when automatic yields are
@@ -413,11 +542,11 @@ func (s *Sim) LockHook(kind string, m any, mode string, site string) {
 					t = &Task{name: fmt.Sprintf("~%020d", gid), kind: "repo", wake: make(chan struct{})}
 				}
 				s.mu.Unlock()
-				s.park(t, lockHeldPoint, lockWant{m: m, mode: mode})
+				s.park(t, lockHeldPoint, lockWant{m: m, mode: mode, gid: gid})
 			}
 			return
 		}
-		s.Hook("lock@"+site, lockWant{m: m, mode: mode})
+		s.Hook("lock@"+site, lockWant{m: m, mode: mode, gid: gid})
 	case "acq":
 		s.mu.Lock()
 		s.depth[gid]++
@@ -428,8 +557,18 @@ func (s *Sim) LockHook(kind string, m any, mode string, site string) {
 		}
 		if mode == "W" {
 			ls.writer = gid
+			if s.announced[gid] == m {
+				delete(s.announced, gid)
+				if ls.pendingW > 0 {
+					ls.pendingW--
+				}
+			}
 		} else {
 			ls.readers++
+			if ls.readerG == nil {
+				ls.readerG = map[uint64]int{}
+			}
+			ls.readerG[gid]++
 		}
 		s.mu.Unlock()
 	case "rel":
@@ -442,9 +581,43 @@ func (s *Sim) LockHook(kind string, m any, mode string, site string) {
 				ls.writer = 0
 			} else if ls.readers > 0 {
 				ls.readers--
+				if ls.readerG[gid]--; ls.readerG[gid] <= 0 {
+					delete(ls.readerG, gid)
+				}
 			}
 		}
 		s.mu.Unlock()
+	}
+}
+
+// FSHook is installed as server.SimFSHook in autoyield builds: the goroutine is
+// about to change the file system (create, write, close, rename, remove). It is
+// a yield point like any other - other goroutines, e.g. a second snapshot
+// writer, may run in between two file operations - and the world takes a crash
+// copy of the state directory at each of them.
+func (s *Sim) FSHook(op, site string) {
+	if s.Free || !s.active.Load() || insideOnce() {
+		return
+	}
+	s.Hook("fs@"+site+":"+op, nil)
+}
+
+// insideOnce reports whether the caller runs inside a sync.Once.Do: the Once
+// holds a mutex of its own that the instrumentation does not see, so a task
+// parked there would leave a second caller of the same Once spinning on a real
+// lock and the bubble could never become quiescent. No automatic yield there.
+func insideOnce() bool {
+	var pcs [48]uintptr
+	n := runtime.Callers(3, pcs[:])
+	frames := runtime.CallersFrames(pcs[:n])
+	for {
+		f, more := frames.Next()
+		if strings.HasPrefix(f.Function, "sync.(*Once).") {
+			return true
+		}
+		if !more {
+			return false
+		}
 	}
 }
 
@@ -469,7 +642,10 @@ func (s *Sim) lockFreeLocked(m any, mode string, gid uint64) bool {
 	if ls.writer != 0 && ls.writer != gid {
 		return false
 	}
-	return mode == "R" || ls.readers == 0
+	if mode == "R" {
+		return ls.pendingW == 0
+	}
+	return ls.readers == 0
 }
 
 // SetHold arms a hold for the calling goroutine's task (one shot).
@@ -497,9 +673,12 @@ func (s *Sim) eligible(parked []*Task) ([]*Task, time.Duration) {
 	var out []*Task
 	minLeft := time.Duration(0)
 	now := s.Now()
+	lockBlocked := false
 	for _, t := range parked {
 		if t.point == lockHeldPoint {
-			continue // continues by itself once the mutex is free (releaseLockWaiter)
+			// continues by itself once the mutex is free (releaseLockWaiter)
+			lockBlocked = true
+			continue
 		}
 		if sec := s.sections[t.point]; sec != nil {
 			if o := sec.owners[sec.key(t.arg)]; o != nil && o != t {
@@ -507,7 +686,9 @@ func (s *Sim) eligible(parked []*Task) ([]*Task, time.Duration) {
 			}
 		}
 		if lw, ok := t.arg.(lockWant); ok && !s.lockFreeLocked(lw.m, lw.mode, 0) {
-			continue // the mutex this task is about to take is held: releasing it would block a goroutine on a real lock
+			// the mutex this task is about to take is held: releasing it would block a goroutine on a real lock
+			lockBlocked = true
+			continue
 		}
 		if t.held && t.holdInfo != nil {
 			h := t.holdInfo
@@ -526,6 +707,9 @@ func (s *Sim) eligible(parked []*Task) ([]*Task, time.Duration) {
 			}
 		}
 		out = append(out, t)
+	}
+	if lockBlocked && s.Deadlock == "" {
+		s.Deadlock = s.lockCycleLocked(parked)
 	}
 	return out, minLeft
 }
@@ -594,6 +778,10 @@ func (s *Sim) Run() error {
 		s.steps++
 		all := parked
 		parked, holdLeft := s.eligible(parked)
+		if s.Deadlock != "" {
+			s.Budget = "deadlock"
+			return nil
+		}
 		choice := s.decide(parked)
 		if choice == nil && len(parked) == 0 && len(all) > 0 {
 			// only held tasks are parked: let time pass until something else
@@ -681,6 +869,13 @@ func (s *Sim) releaseLockWaiter() bool {
 // Stop turns every yield point into a no-op and releases all parked tasks.
 func (s *Sim) Stop() {
 	s.active.Store(false)
+	if s.Deadlock != "" {
+		// Leave everything parked: released tasks would run into the real
+		// mutexes of the deadlocked goroutines and the bubble could never
+		// become quiescent again. The run is over; the bubble ends with these
+		// goroutines blocked, which Execute reports.
+		return
+	}
 	s.mu.Lock()
 	ps := s.parked
 	s.parked = nil
